@@ -193,6 +193,9 @@ pub fn run_extension_oracle(cx: &mut Ctx, th: bool) {
     for mode in 0..4 {
         for &(kind, n) in shapes.iter().chain([(4u64, 100_000usize)].iter()) { big_case(cx, 2, mode, kind, n); }
     }
+    // exactly the size ZstdCompressor::decompress allows for (100 MiB; one byte more is refused by design)
+    big_case(cx, 0, 3, 1, 100 * 1024 * 1024);
+    if th { big_case(cx, 0, 2, 0, 100 * 1024 * 1024); big_case(cx, 1, 2, 1, 100 * 1024 * 1024); }
     // batches that overrun their deadline, every mode, fallback on and off
     for mode in 0..4 {
         for fallback in [true, false] {
@@ -620,10 +623,11 @@ pub fn run_pazip_sim(cx: &mut Ctx, th: bool) {
 // SimdLz77Compressor (inherent methods) against coq/C02/ModelSimd.v  (ops 40..45 of RunCaseS.v)
 // ---------------------------------------------------------------------------------------------
 /// what the inherent decompress makes of a byte string: Ok bytes / Err / panic
-fn simd_obs(bytes: &[u8]) -> Option<Vec<u128>> {
+fn simd_obs(v: usize, bytes: &[u8]) -> Option<Vec<u128>> {
+    // v: which of the ways to reach the inherent decompress is used (0 = SimdLz77Compressor::new(); see b::simd_variant)
     let r = guarded(|| {
-        let mut c = SimdLz77Compressor::new().ok()?;
-        Some(SimdLz77Compressor::decompress(&mut c, bytes).map_err(|e| e.to_string()))
+        let mut c = super::b::simd_variant(v)?;
+        Some(c.decompress(bytes).map_err(|e| e.to_string()))
     });
     match r {
         Err(_) => Some(vec![2]),
@@ -638,11 +642,12 @@ fn token_stream(ms: &[M3]) -> Option<Vec<u8>> {
     for m in ms { let mm = to_match(m)?; encode_match(&mm, &mut w).ok()?; }
     Some(w.finish())
 }
-pub fn simd_tie_bytes(cx: &mut Ctx, bytes: &[u8], force: bool) {
+pub fn simd_tie_bytes(cx: &mut Ctx, bytes: &[u8], force: bool) { simd_tie_bytes_v(cx, 0, bytes, force) }
+pub fn simd_tie_bytes_v(cx: &mut Ctx, v: usize, bytes: &[u8], force: bool) {
     let cell = "simd_lz77/inherent";
-    let cj = json!({"cell": "simd_tie", "data": bytes});
-    cx.sum.eval(cell, &format!("stie {:?}", bytes), bytes.len() >= 2);
-    match simd_obs(bytes) {
+    let cj = json!({"cell": "simd_tie", "variant": v, "data": bytes});
+    cx.sum.eval(cell, &format!("stie {} {:?}", v, bytes), bytes.len() >= 2);
+    match simd_obs(v, bytes) {
         Some(exp) => { cx.sum.dist(&format!("simd_decompress_outcome={}", exp[0])); cx.coq(40, &u(bytes), &[], &exp, cj, force) }
         None => cx.sum.dist("simd_tie_skipped"),
     }
@@ -664,7 +669,7 @@ pub fn run_simd_ties(cx: &mut Ctx, th: bool) {
     }
     // (b) token streams the real finder does not produce: every kind, back-references beyond the output (placeholder letters),
     //     Global tokens, RLE with a non-zero byte, streams with 0..7 padding bits
-    for _ in 0..(if th { 400 } else { 40 }) {
+    for kk in 0..(if th { 400 } else { 40 }) {
         let mut r = cx.rng.clone();
         let n = r.range(1, 8) as usize;
         let mut ms: Vec<M3> = vec![];
@@ -684,7 +689,8 @@ pub fn run_simd_ties(cx: &mut Ctx, th: bool) {
             ms.push(m);
         }
         cx.rng = r;
-        if let Some(z) = token_stream(&ms) { simd_tie_bytes(cx, &z, false); }
+        // through every way to reach the inherent decompress in turn (presets, X1..X8 wrappers, the global instance)
+        if let Some(z) = token_stream(&ms) { simd_tie_bytes_v(cx, kk % super::b::N_SIMDV, &z, false); }
     }
     // (c) arbitrary bytes
     for _ in 0..(if th { 300 } else { 30 }) {
